@@ -15,7 +15,8 @@ T == Traces[tid]
 Clause(i) ==
   LET p == T.pts[i] IN
   IF p[3] > K * p[2] THEN "work_per_token_exceeds_bound"
-  ELSE IF i > 1 /\ p[3] * 100 > 2 * T.pts[i - 1][3] * (100 + EpsPct) + 100 * C THEN "doubling_the_size_more_than_doubles_the_work"
+  \* (32-bit arithmetic: the harness clamps recorded work at 5 * 10^8, so 2.6 * work stays representable)
+  ELSE IF i > 1 /\ p[3] > 2 * T.pts[i - 1][3] + ((2 * T.pts[i - 1][3]) \div 100) * EpsPct + C THEN "doubling_the_size_more_than_doubles_the_work"
   ELSE "ok"
 TInit == tid \in 1..Len(Traces) /\ k = 1 /\ verdict = "run"
 Step == /\ verdict = "run" /\ k <= Len(T.pts)
